@@ -136,6 +136,22 @@ def check_map(ctx, part, kind, fn):
                     ctx.violation("clef_map-scalar-vector-disagree", f"vector clef_map at t={t} staff {s}: {vec[s - 1, i].tolist()} expected {list(exp)}", w)
                     return
     else:
+        if not d["measures"] and not d["measures_open"]:
+            # no measure at all: the documented defaults (the maps' own warnings state them) - one measure spanning the timeline,
+            # number 1, metrical position 0 everywhere
+            exp_row = {"measure_map": [d["first"], d["last"]], "measure_number_map": [1], "metrical_position_map": [0, 0]}[kind]
+            some = pos[:: max(1, n // 8)][:10]
+            ctx.check(len(some))
+            try:
+                vec = np.asarray(fn(np.asarray(some))).reshape(len(some), -1).astype(int).tolist()
+                sca = [[int(x) for x in np.asarray(fn(t_)).ravel()] for t_ in some[:3]]
+            except Exception as e:  # noqa
+                ctx.violation(f"{kind}-raises-for-a-part-without-measures", f"{type(e).__name__}: {e}", w)
+                return
+            if any(r != exp_row for r in vec) or any(r != exp_row for r in sca):
+                ctx.violation(f"{kind}-wrong-for-a-part-without-measures", f"{kind} gives {vec[:3]} / scalar {sca[:2]}, documented default {exp_row}", w)
+            ctx.extra["measure_maps_of_parts_without_measures_judged"] += 1
+            return
         if not d["measures"] or d["measures_open"]:
             ctx.extra["measure_map_without_measures_not_judged"] += 1
             return
@@ -238,6 +254,7 @@ def build_sig_part(rng):
     first_ts_late = rng.random() < 0.15
     meta = {"pickup": False, "irregular": 0, "gaps": 0}
     pending_ts = ts
+    no_measures = rng.random() < 0.08          # a part without any Measure object (the maps document a default for it)
     for i in range(n_meas):
         if i > 0 and rng.random() < 0.3:
             pending_ts = ts = rng.choice(meters)
@@ -254,7 +271,8 @@ def build_sig_part(rng):
             meta["irregular"] += length != bar
         else:
             length = bar
-        part.add(S.Measure(number=i + 1, name=str(i + 1)), t, t + length)
+        if not no_measures:
+            part.add(S.Measure(number=i + 1, name=str(i + 1)), t, t + length)
         t += length
     end = t
     n_staves = rng.choice([1, 1, 2, 3])
